@@ -17,7 +17,12 @@
 //!               find_sysline_in_block (found_min from BLOCKZERO_ANALYSIS_SYSLINE_COUNT_MIN_MAP): the per-row
 //!               counts BEFORE dt_patterns_analysis
 //!                 -> P <found> <patterns r:c,...> <regex_captures_attempted> <ez...> <parse lru ...>
+//!   T <bs>      SyslogProcessor exactly as exec_syslogprocessor drives it (stages 0..3, drop_data_try, no filters):
+//!                 -> T <gate result> <n> <beg,end,instant ns>...     (the INSTANT attributed to every message)
+//!   R <bs>      find_sysline(0), then at each returned offset, on a bare SyslineReader (any bs >= 1, all patterns)
+//!                 -> R OK <n> <beg,end,instant ns>...
 use s4lib::common::{Count, FileOffset, FileType, FileTypeArchive, FileTypeTextEncoding, FPath, ResultS3};
+use s4lib::data::sysline::SyslineP;
 use s4lib::data::datetime::{bytes_to_regex_to_datetime, DATETIME_PARSE_DATAS, DATETIME_PARSE_DATAS_LEN};
 use s4lib::readers::summary::SummaryReaderData;
 use s4lib::readers::syslinereader::{SummarySyslineReader, SyslineReader};
@@ -111,6 +116,95 @@ fn pass1(path: &FPath, bs: u64) -> String {
     format!("P\t{}\t{}", found, counters(&slr.summary()))
 }
 
+fn item_ns(s: &SyslineP) -> String {
+    let ns: i128 = (s.dt().timestamp() as i128) * 1_000_000_000 + (s.dt().timestamp_subsec_nanos() as i128);
+    format!("{},{},{}", s.fileoffset_begin(), s.fileoffset_end(), ns)
+}
+
+fn raw_driver(path: &FPath, bs: u64) -> String {
+    let mut slr = match SyslineReader::new(path.clone(), FT, bs, tz()) {
+        Ok(v) => v,
+        Err(_) => return "R\tErrNew".to_string(),
+    };
+    let mut items: Vec<String> = Vec::new();
+    let mut fo: FileOffset = 0;
+    loop {
+        match slr.find_sysline(fo) {
+            ResultS3::Found((fo_next, syslinep)) => {
+                let is_last = slr.is_sysline_last(&syslinep);
+                items.push(item_ns(&syslinep));
+                fo = fo_next;
+                if is_last {
+                    break;
+                }
+            }
+            ResultS3::Done => break,
+            ResultS3::Err(_) => return "R\tErr".to_string(),
+        }
+        if items.len() > 1_000_000 {
+            return "R\tLOOP".to_string();
+        }
+    }
+    format!("R\tOK\t{}\t{}", items.len(), items.join("\t"))
+}
+
+/// mirrors exec_syslogprocessor of src/bin/s4.rs (no datetime filters)
+fn stage_driver(path: &FPath, bs: u64) -> String {
+    let mut sp = match SyslogProcessor::new(path.clone(), FT, bs, tz(), None, None) {
+        Ok(v) => v,
+        Err(_) => return "T\tErrNew".to_string(),
+    };
+    let _r0 = sp.process_stage0_valid_file_check();
+    let r1 = sp.process_stage1_blockzero_analysis();
+    if !r1.is_ok() {
+        return format!("T\t{}\t0", result_name(&r1));
+    }
+    let r2 = sp.process_stage2_find_dt(&None);
+    if !r2.is_ok() {
+        return format!("T\tStage2{}\t0", result_name(&r2));
+    }
+    let mut items: Vec<String> = Vec::new();
+    let mut fo1: FileOffset = 0;
+    let search_more: bool;
+    match sp.find_sysline_between_datetime_filters(0) {
+        ResultS3::Found((fo, syslinep)) => {
+            fo1 = fo;
+            let is_last = sp.is_sysline_last(&syslinep);
+            items.push(item_ns(&syslinep));
+            search_more = !is_last;
+        }
+        ResultS3::Done => search_more = false,
+        ResultS3::Err(_) => return "T\tErrFind".to_string(),
+    }
+    if search_more {
+        sp.process_stage3_stream_syslines();
+        let mut syslinep_last_opt: Option<SyslineP> = None;
+        loop {
+            match sp.find_sysline_between_datetime_filters(fo1) {
+                ResultS3::Found((fo, syslinep)) => {
+                    let syslinep_tmp = syslinep.clone();
+                    let is_last = sp.is_sysline_last(&syslinep);
+                    items.push(item_ns(&syslinep));
+                    fo1 = fo;
+                    if is_last {
+                        break;
+                    }
+                    if let Some(syslinep_last) = syslinep_last_opt {
+                        sp.drop_data_try(&syslinep_last);
+                    }
+                    syslinep_last_opt = Some(syslinep_tmp);
+                }
+                ResultS3::Done => break,
+                ResultS3::Err(_) => return "T\tErrFind".to_string(),
+            }
+            if items.len() > 1_000_000 {
+                return "T\tLOOP".to_string();
+            }
+        }
+    }
+    format!("T\tFileOk\t{}\t{}", items.len(), items.join("\t"))
+}
+
 fn oracle(line: &[u8]) -> String {
     let fo = tz();
     let fos = fo.to_string();
@@ -165,6 +259,15 @@ fn main() {
                 match catch_unwind(AssertUnwindSafe(|| pass1(&p, bs))) {
                     Ok(s) => println!("{}", s),
                     Err(_) => println!("P\tPANIC"),
+                }
+            }
+            "T" | "R" => {
+                let bs: u64 = arg.parse().unwrap_or(0);
+                let p = path.clone();
+                let c = cmd.to_string();
+                match catch_unwind(AssertUnwindSafe(|| if c == "T" { stage_driver(&p, bs) } else { raw_driver(&p, bs) })) {
+                    Ok(s) => println!("{}", s),
+                    Err(_) => println!("{}\tPANIC", cmd),
                 }
             }
             _ => println!("?\tunknown command"),
